@@ -7,9 +7,11 @@
   KF-C18-1 … are excluded by explicit hypotheses, each with a proved counter-example (`finding_*`).
 -/
 import OdfModel.XhtmlLemmas
+import OdfModel.XhtmlText
+import OdfModel.XhtmlEscape
 import OdfModel.Moin
 namespace OdfModel.Props.C18
-open OdfModel OdfModel.Xml OdfModel.Xhtml OdfModel.Generated.Xhtml
+open OdfModel OdfModel.Xhtml OdfModel.Generated.Xhtml
 
 
 /-! ## The vocabulary: element names and what the regenerated dispatch table says about them -/
@@ -308,10 +310,190 @@ theorem balanced_partial (cfg : Cfg) (doc : Node) (h : Supported doc) (toks : Li
   obtain ⟨toks', ht', hd⟩ := total_balanced_partial cfg doc h
   rw [ht] at ht'; cases ht'; exact hd
 
-/-! ## The known findings, as proved counter-examples on the model (replayed on the real code by harness/c18.py) -/
 
-/-- concatenation of the document-derived text tokens (what a reader of the page sees, without the converter's own strings) -/
-def textOf (ts : List Tok) : Str := ts.flatMap (fun t => match t with | .text s => s | _ => [])
+
+/-! ## escaped -/
+
+/-- **C18 (escaped) — token level**: a document string can reach the rendered output in three ways only, and each is
+    escaped at render time:
+    * as a `text` token — rendered `escape(s)`: no `<`, no `>`, and the reference decoder gives `s` back, so every `&`
+      in it begins `&amp;`, `&lt;` or `&gt;`;
+    * as an attribute value of an `otag`/`etag` token — rendered `name=quoteattr(v)` (see `attr_value_quoted`);
+    * as the opaque style sheet `Raw.css` (NOT escaped by the converter: obligation `cssOK`, finding KF-C18-4).
+    All other `raw` tokens are constants of the converter or the decimal note number (`raw_tokens_constant`). -/
+theorem text_token_escaped (s : Str) :
+    renderTok (.text s) = sxEscape s ∧ 60 ∉ renderTok (.text s) ∧ 62 ∉ renderTok (.text s) ∧
+      decText (s.length + 1) (renderTok (.text s)) = some s :=
+  ⟨rfl, (sxEscape_no_markup s).1, (sxEscape_no_markup s).2, decText_sxEscape s⟩
+
+/-- **C18 (escaped) — attribute values**: an attribute is rendered `name="…"` or `name='…'`; the reference XML
+    attribute-value parser reads exactly `v` back and stops behind the closing quote, whatever quotes, `<`, `&`, CR,
+    LF or TAB the value contains (v a string of XML characters as load() delivers them). -/
+theorem attr_value_quoted (k v X : Str) (hv : Xml.StrOK v) (hf : ∀ c ∈ v, Xml.filtered c = false) :
+    ∃ q r1, renderAttr (k, v) ++ X = k ++ 61 :: q :: r1 ∧ (q = 34 ∨ q = 39) ∧
+      Spec.parseAttVal (r1.length + 1) q r1 = some (v, X) ∧ 60 ∉ sxQuoteattr v := by
+  obtain ⟨q, r1, h1, h2, h3⟩ := attr_roundtrip v X hv hf
+  exact ⟨q, r1, by simp [renderAttr, h1], h2, h3, sxQuoteattr_no_lt v⟩
+
+/-- the `raw` tokens: the opaque style sheet, the note number, or one of eight literal strings of odf2xhtml.py -/
+theorem raw_tokens_constant (r : Raw) :
+    (∃ s, r = .css s) ∨ (∃ n, r = .num n ∧ renderRaw r = natToStr n) ∨
+      renderRaw r ∈ [sDoctype, sNbsp, [32], sTitleOpen, sTitleClose, sCdataOpen, sCdataClose, defaultStyles] := by
+  cases r <;> simp [renderRaw]
+
+/-- **C18 (escaped) — whole output**: markup characters in text, meta data, link targets or style names add no `<`:
+    the rendered output contains exactly as many `<` as the same token sequence with every text and every attribute
+    value emptied. -/
+theorem escaped_no_new_markup (ts : List Tok) : (render ts).count 60 = (render (ts.map shape)).count 60 :=
+  count_lt_render ts
+
+/-- the single obligation on the opaque style sheet text (checked by the oracle on the real output, NOT proved — the
+    converter copies style names and property values unescaped: finding KF-C18-4) -/
+def cssOK (css : Str) : Prop := ¬ (Xml.CDC <:+: css)
+
+/-! ## complete -/
+
+/-- the body element with the text bookkeeping: everything visible in the running text, then the note bodies -/
+theorem walk_body_txt (cfg : Cfg) (ctx : Ctx) (st : St) (qt : Str) (at_ : Attrs) (blocks : List Node) {hs he : HName}
+    (hd : dispatch qt = (some hs, some he)) (hb : BodyH hs he) (ht : TxtL false true true blocks) (hpe : ctx.pe = true)
+    (hpc : ctx.pc = true) (hi : Inv false st) (hn : st.notes = []) (hdepth : 2 ≤ st.depth) :
+    ∃ st', walk cfg ctx st (.elem qt at_ blocks) = .ok st' ∧ 0 < st'.depth ∧
+      (visMainL blocks ++ visNotesL blocks).Sublist (textOf st'.out) := by
+  obtain ⟨st1, h1, hd1, hs1, hb1⟩ := htmlBody_spec cfg st (by omega)
+  have hi1 : Inv false st1 := ⟨by rw [hs1.saved]; exact hi.1, by rw [hs1.nbOpen]; exact hi.2.1, by rw [hs1.cur, hs1.notes]; exact hi.2.2⟩
+  obtain ⟨st2, h2, e2, t2⟩ := walkList_txt cfg blocks false true true ⟨(qt, at_) :: ctx.stack, true, true⟩ st1 ht rfl rfl (by simp) hi1
+  obtain ⟨N, hN, okN, _⟩ := e2.notes
+  have hn2 : NotesOK st2.notes := by rw [hN, hs1.notes, hn]; simpa using okN
+  obtain ⟨st3, h3, hd3, hs3, hb3⟩ := generateFootnotes_spec cfg st2 hn2
+  have hdep3 : 0 < st3.depth := by rw [hd3, e2.depth, hd1]; omega
+  have hmain : (visMainL blocks).Sublist (textOf st2.out) := by
+    have := t2.main [] (by unfold Pre; simp)
+    unfold Pre at this; simpa using this
+  have hnotes : (visNotesL blocks).Sublist (notesText st2.notes) := by
+    have := t2.notes [] (by simp)
+    simpa using this
+  have ht3 : textOf st3.out = textOf st2.out ++ notesText st2.notes := generateFootnotes_text cfg st2 st3 e2.cur h3
+  refine ⟨closePure nBody true st3, ?_, ?_, ?_⟩
+  · rw [walk_elem _ _ _ _ _ _ hpe]
+    simp only [startEl, endEl, hd, runH_body_start cfg ctx hb, runH_body_end cfg ctx hb, h1, Except.map, hpe, hpc, h2, if_true,
+      bind, Except.bind, h3, closetag_ok _ _ _ hdep3]
+  · simp; rw [hd3, e2.depth, hd1]; omega
+  · simp [ht3, tokText]
+    exact List.Sublist.append hmain hnotes
+
+/-- **C18 (complete) — partial**: for a supported document whose running text is `Txt` (no handler purges the pending
+    character data while visible text is pending — the class of finding KF-C18-2 is exactly what `Txt` excludes; see
+    `finding_pending_before_textbox`), the conversion succeeds and the document's visible text — paragraphs, headings, list
+    items, table cells, links, text boxes in document order, then the foot note bodies in document order — is a subsequence
+    of the text tokens of the output, CHARACTER FOR CHARACTER (no white space normalisation is needed for XHTML).
+    `List.Sublist (nonWs v) (nonWs t)` of the design follows by filtering both sides (`complete_nonWs_partial`). -/
+theorem complete_partial (cfg : Cfg) (qd : Str) (ad : Attrs) (pre : List Node) (qb : Str) (ab : Attrs) (qt : Str) (at_ : Attrs)
+    (blocks : List Node) (hs he : HName)
+    (hdd : dispatch qd = (some .s_office_document_content, some .e_office_document_content))
+    (hpre : HeadL [(qd, ad)] pre) (hdb : dispatch qb = (none, none)) (hdt : dispatch qt = (some hs, some he))
+    (hbody : BodyH hs he) (ht : TxtL false true true blocks) :
+    ∃ toks, convert cfg (.elem qd ad (pre ++ [.elem qb ab [.elem qt at_ blocks]])) = .ok toks ∧
+      (visMainL blocks ++ visNotesL blocks).Sublist (textOf toks) := by
+  obtain ⟨st1, hr1, ho1, hdep1, hsv1, hnb1, hno1, hcu1⟩ := doc_start cfg ⟨[], true, true⟩ qd ad true true
+  obtain ⟨st2, h2, q2⟩ := walkList_head cfg pre ⟨[(qd, ad)], true, true⟩ st1 hpre
+  have hi2 : Inv false st2 := ⟨by rw [q2.saved, hsv1]; rfl, by rw [q2.nbOpen, hnb1], by rw [q2.cur, q2.notes, hcu1, hno1]; rfl⟩
+  obtain ⟨st3, h3, hdep3, hsub⟩ := walk_body_txt cfg ⟨(qb, ab) :: [(qd, ad)], true, true⟩ st2 qt at_ blocks hdt hbody ht rfl rfl hi2
+    (by rw [q2.notes, hno1]) (by rw [q2.depth, hdep1]; exact Nat.le_refl 2)
+  refine ⟨(closePure nHtml true st3).out, ?_, ?_⟩
+  · unfold convert
+    rw [walk_elem _ _ _ _ _ _ rfl]
+    simp only [startEl, endEl, hdd, hr1, walkList_append, h2, walkList]
+    rw [walk_elem _ _ _ _ _ _ rfl]
+    simp only [startEl, endEl, hdb, walkList, h3, if_true, runH, closetag_ok _ _ _ hdep3, Except.map]
+  · simpa [tokText] using hsub
+
+/-- Python's `str.isspace`, as in `Moin.isSpace`; dropping white space on both sides keeps the subsequence -/
+def nonWs (s : Str) : Str := s.filter (fun c => !Moin.isSpace c)
+
+/-- **C18 (complete), in the form of the design — partial**: `Sublist (nonWs (visibleText t)) (nonWs (textOf (convert t)))` -/
+theorem complete_nonWs_partial (cfg : Cfg) (qd : Str) (ad : Attrs) (pre : List Node) (qb : Str) (ab : Attrs) (qt : Str) (at_ : Attrs)
+    (blocks : List Node) (hs he : HName)
+    (hdd : dispatch qd = (some .s_office_document_content, some .e_office_document_content))
+    (hpre : HeadL [(qd, ad)] pre) (hdb : dispatch qb = (none, none)) (hdt : dispatch qt = (some hs, some he))
+    (hbody : BodyH hs he) (ht : TxtL false true true blocks) :
+    ∃ toks, convert cfg (.elem qd ad (pre ++ [.elem qb ab [.elem qt at_ blocks]])) = .ok toks ∧
+      (nonWs (visMainL blocks ++ visNotesL blocks)).Sublist (nonWs (textOf toks)) := by
+  obtain ⟨toks, h1, h2⟩ := complete_partial cfg qd ad pre qb ab qt at_ blocks hs he hdd hpre hdb hdt hbody ht
+  exact ⟨toks, h1, h2.filter _⟩
+
+
+/-! ### the vocabulary in the cleanliness judgement `Txt` (b = inside a note body; c, c' = clean before / after) -/
+
+theorem txt_p (b c2 : Bool) (a : Attrs) (kids : List Node) (h : TxtL b true c2 kids) : Txt b true true (.elem qP a kids) :=
+  .bracket b true true c2 true qP a kids _ _ .purge .flush (disp (by decide)) (.p a) rfl rfl ⟨rfl, rfl⟩ h rfl
+theorem txt_h (b c2 : Bool) (a : Attrs) (kids : List Node) (lvl : Nat) (hl : headingLevel a = .ok lvl) (h : TxtL b true c2 kids) :
+    Txt b true true (.elem qH a kids) :=
+  .bracket b true true c2 true qH a kids _ _ .purge .flush (disp (by decide)) (.heading a lvl hl) rfl rfl ⟨rfl, rfl⟩ h rfl
+theorem txt_span (b c c2 : Bool) (a : Attrs) (kids : List Node) (h : TxtL b true c2 kids) : Txt b c true (.elem qSpan a kids) :=
+  .bracket b c true c2 true qSpan a kids _ _ .flush .flush (disp (by decide)) (.span a) rfl rfl rfl h rfl
+theorem txt_a (b c c2 : Bool) (a : Attrs) (kids : List Node) (v : Str) (hv : a.lookup kHref = some v) (h : TxtL b true c2 kids) :
+    Txt b c true (.elem qA a kids) :=
+  .bracket b c true c2 true qA a kids _ _ .flush .flush (disp (by decide)) (.link a v hv) rfl rfl rfl h rfl
+theorem txt_list (b c2 : Bool) (a : Attrs) (kids : List Node) (h : TxtL b true c2 kids) : Txt b true true (.elem qList a kids) :=
+  .bracket b true true c2 true qList a kids _ _ .purge .flush (disp (by decide)) (.list a) rfl rfl ⟨rfl, rfl⟩ h rfl
+theorem txt_list_item (b c2 : Bool) (a : Attrs) (kids : List Node) (h : TxtL b true c2 kids) :
+    Txt b true true (.elem qListItem a kids) :=
+  .bracket b true true c2 true qListItem a kids _ _ .purge .flush (disp (by decide)) (.item a) rfl rfl ⟨rfl, rfl⟩ h rfl
+theorem txt_table (b c2 : Bool) (a : Attrs) (kids : List Node) (h : TxtL b true c2 kids) : Txt b true true (.elem qTable a kids) :=
+  .bracket b true true c2 true qTable a kids _ _ .purge .flush (disp (by decide)) (.table a) rfl rfl ⟨rfl, rfl⟩ h rfl
+theorem txt_row (b c2 : Bool) (a : Attrs) (kids : List Node) (h : TxtL b true c2 kids) : Txt b true true (.elem qRow a kids) :=
+  .bracket b true true c2 true qRow a kids _ _ .purge .flush (disp (by decide)) (.row a) rfl rfl ⟨rfl, rfl⟩ h rfl
+theorem txt_cell (b c2 : Bool) (a : Attrs) (kids : List Node) (h : TxtL b true c2 kids) : Txt b true true (.elem qCell a kids) :=
+  .bracket b true true c2 true qCell a kids _ _ .purge .flush (disp (by decide)) (.cell a) rfl rfl ⟨rfl, rfl⟩ h rfl
+/-- a frame / text box neither writes nor purges: it is as clean as its content leaves it — and its content must cope
+    with what is pending before the frame -/
+theorem txt_frame (b c c' : Bool) (a : Attrs) (kids : List Node) (h : TxtL b c c' kids) : Txt b c c' (.elem qFrame a kids) :=
+  .bracket b c c c' c' qFrame a kids _ _ .keep .keep (disp (by decide)) (.frame a) rfl rfl rfl h rfl
+theorem txt_text_box (b c c' : Bool) (a : Attrs) (kids : List Node) (h : TxtL b c c' kids) : Txt b c c' (.elem qTextBox a kids) :=
+  .bracket b c c c' c' qTextBox a kids _ _ .keep .keep (disp (by decide)) (.textbox a) rfl rfl rfl h rfl
+theorem txt_image (b c : Bool) (a : Attrs) (v : Str) (hv : a.lookup kHref = some v) : Txt b c c (.elem qImage a []) :=
+  .leaf b c c c qImage a [] _ .keep (disp (by decide)) (.image a v hv) rfl rfl (.nil b c)
+theorem txt_s (b c : Bool) (a : Attrs) (n : Nat) (hn : pyInt ((a.lookup kC).getD sOne) = some n) : Txt b c c (.elem qS a []) :=
+  .leaf b c c c qS a [] _ .keep (disp (by decide)) (.s a n hn) rfl rfl (.nil b c)
+theorem txt_tab (b c : Bool) (a : Attrs) : Txt b c true (.elem qTab a []) :=
+  .leaf b c true true qTab a [] _ .flush (disp (by decide)) (.tab a) rfl rfl (.nil b true)
+theorem txt_line_break (b c : Bool) (a : Attrs) : Txt b c true (.elem qLineBreak a []) :=
+  .leaf b c true true qLineBreak a [] _ .flush (disp (by decide)) (.br a) rfl rfl (.nil b true)
+theorem txt_bookmark (b c : Bool) (a : Attrs) (v : Str) (hv : a.lookup kName = some v) : Txt b c true (.elem qBookmark a []) :=
+  .leaf b c true true qBookmark a [] _ .flush (disp (by decide)) (.bookmark a v hv) rfl rfl (.nil b true)
+theorem txt_section (b c c' : Bool) (a : Attrs) (kids : List Node) (h : TxtL b c c' kids) : Txt b c c' (.elem qSection a kids) :=
+  .transparent b c c' qSection a kids (disp (by decide)) h
+theorem txt_covered (b c : Bool) (a : Attrs) (kids : List Node) : Txt b c c (.elem qCovered a kids) :=
+  .ignored b c qCovered a kids none (disp (by decide))
+theorem txt_note (c : Bool) (a ac ab : Attrs) (label : List Str) (kids : List Node) (h : TxtL true true true kids) :
+    Txt false c true (.elem qNote a [.elem qCitation ac (label.map Node.text), .elem qNoteBody ab kids]) :=
+  .note c qNote a qCitation ac label qNoteBody ab kids (disp (by decide)) (disp (by decide)) (disp (by decide)) h
+
+/-- the hypotheses of `complete_partial` are satisfiable:
+    <p>a<span>b</span><s/>, a foot note, <frame><text-box><p>e</p></text-box></frame>g</p> <list><item><p>d</p></item></list>
+    (the frame follows a note, i.e. a flush: nothing is pending there) -/
+example : TxtL false true true
+    [.elem qP [] [.text [97], .elem qSpan [] [.text [98]], .elem qS [] [],
+                  .elem qNote [] [.elem qCitation [] [.text [49]], .elem qNoteBody [] [.elem qP [] [.text [102]]]],
+                  .elem qFrame [] [.elem qTextBox [] [.elem qP [] [.text [101]]]], .text [103]],
+     .elem qList [] [.elem qListItem [] [.elem qP [] [.text [100]]]]] := by
+  have one (b : Bool) (x : Cp) : TxtL b true false [.text [x]] := .cons _ _ _ _ _ _ (.text _ _ _) (.nil _ _)
+  have para (b : Bool) (x : Cp) : TxtL b true true [.elem qP [] [.text [x]]] :=
+    .cons _ _ true _ _ _ (txt_p _ false _ _ (one b x)) (.nil _ _)
+  have inl : TxtL false true false
+      [.text [97], .elem qSpan [] [.text [98]], .elem qS [] [],
+       .elem qNote [] [.elem qCitation [] [.text [49]], .elem qNoteBody [] [.elem qP [] [.text [102]]]],
+       .elem qFrame [] [.elem qTextBox [] [.elem qP [] [.text [101]]]], .text [103]] :=
+    .cons _ _ false _ _ _ (.text _ _ _) <|
+    .cons _ _ true _ _ _ (txt_span _ _ false _ _ (one _ 98)) <|
+    .cons _ _ true _ _ _ (txt_s _ _ _ 1 (by decide)) <|
+    .cons _ _ true _ _ _ (txt_note _ [] [] [] [[49]] _ (para true 102)) <|
+    .cons _ _ true _ _ _ (txt_frame _ _ _ _ _ (.cons _ _ true _ _ _ (txt_text_box _ _ _ _ _ (para false 101)) (.nil _ _))) <|
+    .cons _ _ false _ _ _ (.text _ _ _) (.nil _ _)
+  exact .cons _ _ true _ _ _ (txt_p _ false _ _ inl) <|
+    .cons _ _ true _ _ _ (txt_list _ true _ _ (.cons _ _ true _ _ _ (txt_list_item _ true _ _ (para false 100)) (.nil _ _))) (.nil _ _)
+
+/-! ## The known findings, as proved counter-examples on the model (replayed on the real code by harness/c18.py) -/
 
 /-- **KF-C18-1**: a heading without text:outline-level makes the conversion raise KeyError (both settings of generate_css) -/
 theorem finding_heading_without_level (css : Bool) (cssText : Str) :
@@ -330,6 +512,39 @@ theorem finding_space_before_pending_text :
     convert ⟨false, []⟩ (textDoc [.elem qP [] [.text [97], .elem qS [] [], .text [98]]]) =
       .ok (docStart ++ [.ctag nHead true, .otag nBody [] true, .otag nP [] false, .raw .nbsp, .text [97, 98], .ctag nP true,
                         .ctag nBody true, .ctag nHtml true]) := by
+  rfl
+
+
+/-! ### MoinMoin: the findings on the model `OdfModel.Moin` -/
+
+/-- styles.xml without any style, and content.xml with the given children of office:text, as minidom shows them -/
+def moinStyles : Node := .elem [] [] []
+def moinContent (blocks : List Node) : Node := .elem [] [] [.elem Moin.tBody [] [.elem qText [] blocks]]
+
+/-- **KF-C18-5**: `<p>a<note><citation>1</citation><body><p>b</p><p>c</p></body></note></p>`: only the first paragraph of
+    the foot note is converted; the "c" is nowhere in the output -/
+theorem finding_moin_note_tail :
+    ∃ out, Moin.toString moinStyles (moinContent [.elem qP [] [.text [97], .elem qNote []
+        [.elem qCitation [] [.text [49]], .elem qNoteBody [] [.elem qP [] [.text [98]], .elem qP [] [.text [99]]]]]]) = .ok out ∧
+      98 ∈ out ∧ 99 ∉ out :=
+  ⟨_, rfl, by decide, by decide⟩
+
+/-- **KF-C18-6**: a table inside a table cell becomes ` {table:table} `; its text ("Z") is lost -/
+theorem finding_moin_nested_table :
+    ∃ out, Moin.toString moinStyles (moinContent [.elem qTable [] [.elem qRow [] [.elem qCell []
+        [.elem qTable [] [.elem qRow [] [.elem qCell [] [.elem qP [] [.text [90]]]]]]]]]) = .ok out ∧ 90 ∉ out :=
+  ⟨[10, 124, 124, 32, 123, 116, 97, 98, 108, 101, 58, 116, 97, 98, 108, 101, 125, 32, 124, 124, 10], rfl, by decide⟩
+
+/-- **KF-C18-7**: a section inside a section becomes ` {text:section} `; its text ("Z") is lost -/
+theorem finding_moin_nested_section :
+    ∃ out, Moin.toString moinStyles (moinContent [.elem qSection [] [.elem qSection [] [.elem qP [] [.text [90]]]]]) = .ok out ∧
+      90 ∉ out :=
+  ⟨_, rfl, by decide⟩
+
+/-- **KF-C18-9**: `<p>a<span> </span>b</p>` comes out as "ab": inline_markup returns '' for white space -/
+theorem finding_moin_whitespace_inline :
+    Moin.toString moinStyles (moinContent [.elem qP [] [.text [97], .elem qSpan [] [.text [32]], .text [98]]]) =
+      .ok [97, 98, 10] := by
   rfl
 
 
